@@ -33,6 +33,9 @@ FLOORS = {"quick": {"decisions": 40000, "back_to_back": 15000, "idle_then_arriva
                        "kind_SP": 2000, "kind_WFQ": 2000, "kind_VC": 2000, "kind_DRR": 2000, "kind_RR": 2000,
                        "kind_WRR": 2000}}
 KEYS = tuple(FLOORS["quick"].keys())
+# floors for the situations added with the later rounds of seeded changes (evidence that they were really exercised)
+FLOORS["quick"].update({'echoed_arrivals_inside_next_hop_put': 4000, 'late_arrivals_inside_an_instant': 3000, 'store_as_next_hop_cases': 150})
+FLOORS["thorough"].update({'echoed_arrivals_inside_next_hop_put': 20000, 'late_arrivals_inside_an_instant': 15000, 'store_as_next_hop_cases': 750})
 
 
 def plan(tier):
@@ -193,6 +196,7 @@ def one_case(ctx, case):
     import collections
     stats = collections.Counter({k: 0 for k in KEYS})
     run = run_case(case, stats)
+    vs.count_features(ctx, run)
     cfg = case["cfg"]
     stats["kind_" + cfg["kind"]] += 1
     if cfg["cmap"] in ("mod2", "mod3") and cfg["kind"] in ("WFQ", "VC", "DRR") and len(cfg["classes"]) < len(cfg["flows"]):
